@@ -27,6 +27,7 @@ def parser_levels(prog, res):
         return None
     parser = {b.id: b for b in prog.bodies.values() if b.crate == 'samlang_parser' and b.kind != 'closure'}
     levels = {}
+    info_ = {}
     for b in parser.values():
         builds = False
         ops = set()
@@ -39,8 +40,15 @@ def parser_levels(prog, res):
                         builds = True
                     elif st[2][1][1] == binop.id:
                         ops.add(st[2][1][2])
-        if builds and ops:
-            levels[b.id] = ops
+        info_[b.id] = (builds, ops)
+    # a production may build the node through a shared constructor helper that mentions no operator itself
+    # (`binary_expression(parser, comments, operator, e1, e2)`, `parse_binary_rest(parser, e1, operator, parse_operand)`)
+    builders = {i for i, (bd, ops) in info_.items() if bd and not ops}
+    for i, (bd, ops) in info_.items():
+        if not bd and ops and any(r in builders for r in body_refs(parser[i])):
+            bd = True
+        if bd and ops:
+            levels[i] = ops
     # next tighter level: the level function that F's operand parser directly calls
     nxt = {}
     for fid in levels:
